@@ -22,6 +22,14 @@ impl LangInterpreter for Script {
                 }
                 r
             }
+            // a digit that freezes the number WITHOUT a marker (like German `eins`): the separator word is still accepted
+            [b'e', k @ b'1'..=b'9'] => {
+                let r = b.put(&[*k]);
+                if r.is_ok() {
+                    b.freeze();
+                }
+                r
+            }
             [b'h'] => b.shift(2),
             b"and" if !b.is_empty() => Err(Error::Incomplete),
             // an unguarded conjunction that is not a linking word (like German `und`, Dutch `en`)
